@@ -35,7 +35,7 @@ impl Monitor for C15 {
 
     fn generate(&self, rng: &mut Rng, _tier: Tier) -> J {
         let (mut case, t, _sel, _shape) = gen_base(rng, &BaseCfg { shapes: &[Shape::Aggregate], allow_limit: false, allow_having: true, agg_distinct: false, order_insensitive_only: true, exact_data: true, min_lines: 5, max_lines: 40, not_null_column: false, big_rate: 200, big_lines: 800 });
-        if rng.chance(1, 3) {
+        if case["exact_ints"] != true && rng.chance(1, 3) {
             // a combinable statement for the split relation
             let key = if rng.chance(1, 2) { col("k") } else { col("g") };
             let mut sel = Sel { from: "t".into(), group_by: Some(vec![key.clone()]), ..Default::default() };
@@ -100,10 +100,10 @@ impl Monitor for C15 {
                 if *lines == base.lines { continue; }
                 if interesting { obs.sub(crate::rng::mix(&[base.tag, crate::rng::fnv1a(name.as_bytes())])); }
                 match base.batch(&p, &lines) {
-                    Ok(r) => if !same_rows(&whole, &r, 1e-9) {
+                    Ok(r) => if !(if case["exact_ints"] == true { identical_rows(&whole, &r) } else { same_rows(&whole, &r, 1e-9) }) {
                         // name the aggregates whose column differs
                         let mut cols: Vec<String> = Vec::new();
-                        if r.rows.len() == whole.rows.len() { for (a, b2) in whole.rows.iter().zip(r.rows.iter()) { for (ci, (x, y)) in a.iter().zip(b2.iter()).enumerate() { if !x.same(y, 1e-9) { let n = whole.columns.get(ci).cloned().unwrap_or_default(); let n: String = n.chars().filter(|c| !c.is_ascii_digit()).collect(); if !cols.contains(&n) { cols.push(n); } } } } }
+                        if r.rows.len() == whole.rows.len() { for (a, b2) in whole.rows.iter().zip(r.rows.iter()) { for (ci, (x, y)) in a.iter().zip(b2.iter()).enumerate() { if !(if case["exact_ints"] == true { x.identical(y) } else { x.same(y, 1e-9) }) { let n = whole.columns.get(ci).cloned().unwrap_or_default(); let n: String = n.chars().filter(|c| !c.is_ascii_digit()).collect(); if !cols.contains(&n) { cols.push(n); } } } } }
                         let what = if r.rows.len() != whole.rows.len() { "group-count".to_string() } else { cols.sort(); format!("columns:{}", cols.join("+")) };
                         let sig = format!("order|permute|{}|{}", aggs_in(&base.sql), what);
                         if !vs.iter().any(|v| v.sig == sig) { vs.push(Violation::new(sig, format!("{:?}: original order {} ; {} order {}", base.sql, show_rows(&whole, 4), name, show_rows(&r, 4)))); }
